@@ -31,8 +31,9 @@ const (
 	SizeofHOBGenericHeader = 8
 	// SizeofHOBGUID is the size of the GUID HOB header prior to associated data.
 	SizeofHOBGUID = SizeofHOBGenericHeader + 16
-	// MaxGUIDHOBDataSize is the maximum size of an EFI_HOB_GUID_TYPE's associated data.
-	MaxGUIDHOBDataSize = 0x10000 - SizeofHOBGUID
+	// MaxGUIDHOBDataSize is the maximum size of an EFI_HOB_GUID_TYPE's associated data: the 16-bit
+	// HobLength has to hold the header size plus the data size.
+	MaxGUIDHOBDataSize = 0xFFFF - SizeofHOBGUID
 )
 
 // EFIResourceType is an enum type for resource descriptors.
